@@ -409,8 +409,7 @@ pub(crate) fn verif_body_writer<T: NumberLike>(
 // Verification hook (see verif.rs): the float-driven sizing helpers of
 // training, so that their integer models can be compared value by value.
 // `jumpstart count n` answers (jumpstart, weight); `maxn level n` answers
-// (choose_max_n_prefixes, 0); `runlen count n` answers (1, jumpstart) or (0, 0)
-// according to the arm `push_pref` takes for a range of `count` out of `n`.
+// (choose_max_n_prefixes, 0).
 #[cfg(mwlon_quantile_compression_verif)]
 pub(crate) fn verif_train_sizing(op: &str, a: usize, b: usize) -> (usize, usize) {
   match op {
@@ -419,24 +418,6 @@ pub(crate) fn verif_train_sizing(op: &str, a: usize, b: usize) -> (usize, usize)
       (config.jumpstart, config.weight)
     }
     "maxn" => (choose_max_n_prefixes(a, b), 0),
-    "runlen" => {
-      let sorted = vec![0_u32; b];
-      let mut seq = Vec::<WeightedPrefix<u32>>::new();
-      let mut prefix_idx = 0;
-      let mut buffer = PrefixBuffer::<u32> {
-        seq: &mut seq,
-        prefix_idx: &mut prefix_idx,
-        max_n_pref: 1,
-        n_unsigneds: b,
-        sorted: &sorted,
-        use_gcd: false,
-      };
-      push_pref(&mut buffer, 0, a);
-      match seq[0].prefix.run_len_jumpstart {
-        Some(jumpstart) => (1, jumpstart),
-        None => (0, 0),
-      }
-    }
     _ => (usize::MAX, usize::MAX),
   }
 }
